@@ -32,6 +32,18 @@
 #define SQFS_MAX_DIR_ENT 256
 
 /**
+ * @brief How many directories may be nested inside each other.
+ *
+ * The functions that read an entire directory tree refuse to descend any
+ * further with @ref SQFS_ERROR_OVERFLOW, the packers refuse to create
+ * such a tree. A path of 4096 bytes has at most 2048 components, so
+ * nothing below a directory nested deeper than this can be named by a path
+ * anyway, and code that recurses once per level is guaranteed not to run
+ * out of stack on a crafted image.
+ */
+#define SQFS_MAX_DIR_NESTING 4096
+
+/**
  * @struct sqfs_dir_header_t
  *
  * @brief On-disk data structure of a directory header
